@@ -583,7 +583,7 @@ class CFG:
                 'exc_edges': sum(1 for e in self.edges if e.kind == 'exc')}
 
 
-def path_str(path, limit=14):
+def path_str(path, limit=40):
     out = []
     for e in path[:limit]:
         lab = e.kind if not e.exc else f'{e.kind}:{e.exc}'
